@@ -97,20 +97,8 @@ def r20_1_publish_last(chk):
     ccn = item.lookup("_compute_copy_number")
     if ccn is not None:
         chk.consult(ccn)
-        defs = {}
-        for n in walk_local(ccn.node):
-            if isinstance(n, ast.Assign) and len(n.targets) == 1 and isinstance(n.targets[0], ast.Name):
-                defs[n.targets[0].id] = n.value
-        rets = [n.value for n in walk_local(ccn.node) if isinstance(n, ast.Return) and n.value is not None]
-        seen, work, src = set(), list(rets), ""
-        while work:
-            e = work.pop()
-            src += " " + norm(e)
-            for x in ast.walk(e):
-                if isinstance(x, ast.Name) and x.id in defs and x.id not in seen:
-                    seen.add(x.id)
-                    work.append(defs[x.id])
-        chk.require("get_all_eflr_items" in src or item_list_field(ix) in src, "R20.1", "copy-number-from-registered-items",
+        from .c07 import copy_number_counts_registered_items
+        chk.require(copy_number_counts_registered_items(chk, ccn), "R20.1", "copy-number-from-registered-items",
                     "the copy number is not computed from the items registered in the set (a counter consumed by "
                     "rejected calls shifts later copy numbers)", ccn.where)
     # subclasses: nothing fallible after super().__init__
